@@ -24,6 +24,8 @@ struct TreeGen<'t, 's> {
     stats: &'s mut Stats,
     serial: u32,
     nodes: u32,
+    scramble_mul: u32,
+    scramble_xor: u32,
     /// function bodies generated so far (a tree may hold the same
     /// Arc<FunctionData> in two Function statements)
     bodies: Vec<Arc<FunctionData>>,
@@ -48,13 +50,20 @@ const BIN_OPS: [BinaryOperator; 13] = [
 const NODE_BUDGET: u32 = 110;
 
 impl<'t, 's> TreeGen<'t, 's> {
-    fn range(&mut self) -> SourceRange {
+    /// Unique line per node; with a scrambler the lines are in an arbitrary
+    /// order relative to the fields (a parser may put a value before its
+    /// destination in the source, as `put .. into ..` does).
+    fn line(&mut self) -> u32 {
         self.serial += 1;
-        SourceRange::from(((self.serial, 0), (self.serial, 1)))
+        ((self.serial.wrapping_mul(self.scramble_mul)) ^ self.scramble_xor) & 0xF_FFFF
+    }
+    fn range(&mut self) -> SourceRange {
+        let l = self.line();
+        SourceRange::from(((l, 0), (l, 1)))
     }
     fn loc(&mut self) -> SourceLocation {
-        self.serial += 1;
-        SourceLocation::new(self.serial, 0)
+        let l = self.line();
+        SourceLocation::new(l, 0)
     }
     fn small(&self) -> bool {
         self.nodes > NODE_BUDGET
@@ -1411,8 +1420,15 @@ impl Property for C16 {
     }
 
     fn run(&self, tape: &mut Tape, ctx: &Ctx, stats: &mut Stats) -> ScenarioResult {
+        let (scramble_mul, scramble_xor) = if tape.chance(1, 2) {
+            (2 * tape.draw(1 << 18) + 1, tape.draw(1 << 20))
+        } else {
+            (1, 0)
+        };
         let program = {
             let mut g = TreeGen {
+                scramble_mul,
+                scramble_xor,
                 t: tape,
                 stats,
                 serial: 0,
